@@ -613,7 +613,7 @@ Definition C01_compl_holds (cs : list call) (j : list attempt) (compl : list (li
                                           | Some o => opt_err_eqb o (snd ce)
                                           | None => false
                                           end) (fst ce)) compl
-  && forallb (fun ce => existsb (fun c => negb (rejected c) && forallb (fun m => mem_id m (c_msgs c)) (fst ce)) cs) compl
+  && forallb (fun ce => forallb (fun m => existsb (fun c => negb (rejected c) && mem_id m (c_msgs c)) cs) (fst ce)) compl
   && (async cfg ||
       forallb (fun c => match c_ph c with
                         | CReturned RNil =>
